@@ -449,6 +449,9 @@ class Engine(Interp, InterpExpr, InterpComp, InterpStmt, InterpCall, InterpBuilt
             kind = 'list' if isinstance(rty, TList) else 'set' if isinstance(rty, TSet) else 'dict'
             result = self.wrap(self.alloc(kind), rty)
             self.assume_container_shape(result)
+        elif con.attrs.get('fresh') and isinstance(rty, TRec):
+            # the external returns a NEW payload record (allocated by the call: the caller may write it), keys unconstrained
+            result = RecV(self.alloc('rec'))
         else:
             result = self.fresh_value('ext_' + con.target.split('.')[-1], rty)
         bindings['result'] = result
